@@ -423,7 +423,7 @@ pub fn run(run: &Run) {
     run.assume("content equality is modulo: Integer n = Real n (as f32), null-valued entry = absent entry, direct vs indirect placement, /Length, and additional entries in the copy (counted under walk:added_key:*)");
     let sd = seeds();
     let t = table(&sd, run.tier);
-    let n_gen = run.n(1_000, 20_000);
+    let n_gen = run.n(1_000, 50_000);
     let n = t.fixed.len() as u64 + n_gen;
     run.add("cases_corpus", t.n_corpus);
     run.add("cases_richdoc", t.n_rich);
